@@ -80,8 +80,8 @@ def classify(diags, asm):
         prim = vrun.primary_span(dict(spans=spans)) if spans else None
         foreign = [s for s in allspans if s not in spans]
         first = msg.split('\n')[0]
-        if not spans:
-            tool.append(dict(message=first)); continue
+        if not spans or (d.get('code') and (d['code'] or {}).get('code', '').startswith('E')):
+            tool.append(dict(message=first, line=(prim or {}).get('line_start'))); continue
         labelled = {norm(s.get('label') or ''): s for s in spans}
         cls = None; kind = None; where = prim
         if 'postcondition not satisfied' in msg:
@@ -136,6 +136,8 @@ def classify(diags, asm):
         pl = prim['line_start'] - 1
         if 0 <= pl < len(linemap) and linemap[pl]:
             src = 'src/push/%s.rs:%d' % linemap[pl]
+        if src is None:
+            src = 'src/push/%s.rs:%d' % (u.mod, u.src_line)
         fails.append(dict(unit=u.path, name=u.name, cls=cls, oid=oid, label=label, message=first,
                           gen_line=prim['line_start'], src=src, text=span_text(prim)[:200]))
     # de-duplicate
